@@ -915,6 +915,43 @@ fn rec_case(id: u32, b: &[u8]) -> String {
             }
             format!("rec ok reenc=same oracle={}", fin(&oracle))
         }
+        // VALUE direction for WalReceiptCorrelationRecord: the input is the child CausalTickReceiptRef followed by parent
+        // refs (176 bytes each) in arbitrary order, possibly repeated; the record built from them must encode to bytes the
+        // decoder accepts and maps back to the canonical (sorted, deduplicated) value, independent of the supplied order
+        23 => {
+            const L: usize = warp_core::CAUSAL_TICK_RECEIPT_REF_LEN;
+            if b.len() < L || b.len() % L != 0 {
+                return "rec err oracle=ok".to_string();
+            }
+            let refs: Vec<warp_core::CausalTickReceiptRef> = b
+                .chunks(L)
+                .map(|c| {
+                    let mut raw = [0u8; L];
+                    raw.copy_from_slice(c);
+                    warp_core::CausalTickReceiptRef::from_canonical_bytes(raw)
+                })
+                .collect();
+            let rec = cw::WalReceiptCorrelationRecord { receipt_ref: refs[0], causal_parent_receipts: refs[1..].to_vec() };
+            let enc = rec.to_payload_bytes();
+            let mut canon = refs[1..].to_vec();
+            canon.sort_unstable();
+            canon.dedup();
+            let mut oracle: Vec<String> = Vec::new();
+            match cw::WalReceiptCorrelationRecord::from_payload_bytes(&enc) {
+                Ok(d) => {
+                    if d.receipt_ref != refs[0] || d.causal_parent_receipts != canon || d.to_payload_bytes() != enc {
+                        oracle.push("rec-roundtrip:WalReceiptCorrelationValue".into());
+                    }
+                }
+                Err(_) => oracle.push("rec-encoder-output-rejected:WalReceiptCorrelationValue".into()),
+            }
+            let mut rev = refs[1..].to_vec();
+            rev.reverse();
+            if (cw::WalReceiptCorrelationRecord { receipt_ref: refs[0], causal_parent_receipts: rev }).to_payload_bytes() != enc {
+                oracle.push("rec-bytes-depend-on-parent-order:WalReceiptCorrelationValue".into());
+            }
+            format!("rec ok reenc=same oracle={}", fin(&oracle))
+        }
         _ => "rec unknown".to_string(),
     }
 }
